@@ -249,11 +249,15 @@ def isOfsFor (off : Nat) (e : Entry) : Bool :=
 def isRefFor (name : Bytes) (e : Entry) : Bool :=
   match e.kind with | .ref n _ => n == name | _ => false
 
-/-- A work item of `_follow_chain`: the entry and the base it is applied to (`none` for full objects). -/
-abbrev Work := Entry × Option (Nat × Bytes)
+/-- A work item of `_follow_chain`: the entry and the base it is applied to (`none` for full objects) … -/
+abbrev Work0 := Entry × Option (Nat × Bytes)
+
+/-- … together with the ids of the objects the entry is (directly or indirectly) a delta against, an external
+base included (`on_chain` at the moment the item is popped). -/
+abbrev Work := Work0 × List Bytes
 
 /-- `_resolve_object` + `_result` for one work item. -/
-def resolveOne (H : Hash) (valid : Obj → Bool) (w : Work) : Except Err Obj :=
+def resolveOne (H : Hash) (valid : Obj → Bool) (w : Work0) : Except Err Obj :=
   let mk := fun (ty : Nat) (data : Bytes) =>
     match mkObj H ty data with
     | none => Except.error Err.format                  -- unsupported type number
@@ -273,19 +277,22 @@ def resolveOne (H : Hash) (valid : Obj → Bool) (w : Work) : Except Err Obj :=
 /-- `_follow_chain`: pop a work item, resolve it, yield it, and push everything it unblocks
 (`_pending_ofs.pop(offset)` then `_pending_ref.pop(sha)`, processed last-in first-out).
 The unblocked entries are REMOVED from `pending`: each entry is resolved at most once.
-Result: objects yielded so far, entries still pending, the error that stopped the walk. -/
-def chainLoop (H : Hash) (valid : Obj → Bool) :
-    Nat → List Work → List Entry → List Obj → List Obj × List Entry × Option Err
+With `rej` (`reject_delta_cycles=True`, what the object stores pass since the fix) a delta that resolves to an
+object of its own chain — `sha in on_chain` — stops the walk with ApplyDeltaError BEFORE it is yielded.
+Result: objects yielded so far, each with the ids it was a delta against; entries still pending; the error. -/
+def chainLoop (rej : Bool) (H : Hash) (valid : Obj → Bool) :
+    Nat → List Work → List Entry → List (Obj × List Bytes) → List (Obj × List Bytes) × List Entry × Option Err
   | _, [], pending, acc => (acc, pending, none)
   | 0, _ :: _, pending, acc => (acc, pending, some .other)
   | fuel + 1, w :: todo, pending, acc =>
-    match resolveOne H valid w with
+    match resolveOne H valid w.1 with
     | .error e => (acc, pending, some e)
     | .ok o =>
-      let hit := fun e => isOfsFor w.1.off e || isRefFor o.name e
-      let ub := pending.filter (isOfsFor w.1.off) ++ pending.filter (isRefFor o.name)
-      chainLoop H valid fuel ((ub.map fun e => (e, some (o.ty, o.data))).reverse ++ todo)
-        (pending.filter fun e => !hit e) (acc ++ [o])
+      if rej && w.2.contains o.name then (acc, pending, some .delta) else
+      let hit := fun e => isOfsFor w.1.1.off e || isRefFor o.name e
+      let ub := pending.filter (isOfsFor w.1.1.off) ++ pending.filter (isRefFor o.name)
+      chainLoop rej H valid fuel ((ub.map fun e => ((e, some (o.ty, o.data)), o.name :: w.2)).reverse ++ todo)
+        (pending.filter fun e => !hit e) (acc ++ [(o, w.2)])
 
 /-- One outer step of `_walk_all_chains`: a full object (`for offset, type_num in self._full_ofs`) or
 an external base name (`for base_sha, pending in sorted(self._pending_ref.items())`). -/
@@ -293,23 +300,23 @@ inductive Job where
   | full (e : Entry)
   | ext (name : Bytes)
 
-def runJob (H : Hash) (valid : Obj → Bool) (ext : Bytes → Option (Nat × Bytes)) (fuel : Nat)
-    (j : Job) (pending : List Entry) (acc : List Obj) : List Obj × List Entry × Option Err :=
+def runJob (rej : Bool) (H : Hash) (valid : Obj → Bool) (ext : Bytes → Option (Nat × Bytes)) (fuel : Nat)
+    (j : Job) (pending : List Entry) (acc : List (Obj × List Bytes)) : List (Obj × List Bytes) × List Entry × Option Err :=
   match j with
-  | .full e => chainLoop H valid fuel [(e, none)] pending acc
+  | .full e => chainLoop rej H valid fuel [((e, none), [])] pending acc
   | .ext name =>
     match ext name with
     | none => (acc, pending, none)                        -- KeyError: `continue`
-    | some base =>
-      chainLoop H valid fuel ((pending.filter (isRefFor name)).map fun e => (e, some base))
+    | some base =>                                        -- `_follow_chain(…, base_sha=base_sha)`
+      chainLoop rej H valid fuel ((pending.filter (isRefFor name)).map fun e => ((e, some base), [name]))
         (pending.filter fun e => !isRefFor name e) acc
 
-def runJobs (H : Hash) (valid : Obj → Bool) (ext : Bytes → Option (Nat × Bytes)) (fuel : Nat) :
-    List Job → List Entry → List Obj → List Obj × List Entry × Option Err
+def runJobs (rej : Bool) (H : Hash) (valid : Obj → Bool) (ext : Bytes → Option (Nat × Bytes)) (fuel : Nat) :
+    List Job → List Entry → List (Obj × List Bytes) → List (Obj × List Bytes) × List Entry × Option Err
   | [], pending, acc => (acc, pending, none)
   | j :: js, pending, acc =>
-    match runJob H valid ext fuel j pending acc with
-    | (acc', pending', none) => runJobs H valid ext fuel js pending' acc'
+    match runJob rej H valid ext fuel j pending acc with
+    | (acc', pending', none) => runJobs rej H valid ext fuel js pending' acc'
     | r => r
 
 def bytesLt : Bytes → Bytes → Bool
@@ -336,17 +343,20 @@ inductive Status where
   deriving Repr, DecidableEq
 
 structure ChainOut where
-  objs : List Obj      -- yielded, in order (what an incremental consumer has already seen)
+  chains : List (Obj × List Bytes)   -- yielded, in order, each with the ids of the objects it was a delta against
   status : Status
   deriving Repr
 
-/-- `DeltaChainIterator.__iter__` after `record()`-ing every entry. -/
-def resolveAll (H : Hash) (valid : Obj → Bool) (ext : Bytes → Option (Nat × Bytes)) (entries : List Entry) : ChainOut :=
+/-- What an incremental consumer has seen. -/
+def ChainOut.objs (o : ChainOut) : List Obj := o.chains.map (·.1)
+
+/-- `DeltaChainIterator.__iter__` after `record()`-ing every entry (`rej` = `reject_delta_cycles`). -/
+def resolveAll (rej : Bool) (H : Hash) (valid : Obj → Bool) (ext : Bytes → Option (Nat × Bytes)) (entries : List Entry) : ChainOut :=
   let n := entries.length
-  match runJobs H valid ext n ((entries.filter isFull).map Job.full) (entries.filter fun e => !isFull e) [] with
+  match runJobs rej H valid ext n ((entries.filter isFull).map Job.full) (entries.filter fun e => !isFull e) [] with
   | (acc, _, some e) => ⟨acc, .failed e⟩
   | (acc, pending, none) =>
-    match runJobs H valid ext n ((refNames pending).map Job.ext) pending acc with
+    match runJobs rej H valid ext n ((refNames pending).map Job.ext) pending acc with
     | (acc', _, some e) => ⟨acc', .failed e⟩
     | (acc', pending', none) =>
       if !(refNames pending').isEmpty then ⟨acc', .unresolved (refNames pending')⟩
@@ -364,14 +374,15 @@ structure Cfg where
   commitChecksTrailer : Bool   -- `DiskObjectStore.add_pack().commit` calls `pd.check()` before indexing
   memAddsIncrementally : Bool  -- `MemoryObjectStore` adds objects while the inflater is drained
   failureRemovesTmp : Bool × Bool  -- (add_thin_pack, add_pack().commit) remove their temp file on failure
+  rejectDeltaCycles : Bool := true -- the stores pass `reject_delta_cycles=True` to their indexers / inflaters
   deriving Repr, DecidableEq
 
 def Cfg.current : Cfg :=
   ⟨Gen.Ingest.visitedSet, Gen.Ingest.rollbackCloseGuarded, Gen.Ingest.commitChecksTrailer, Gen.Ingest.memAddsIncrementally,
-   (Gen.Ingest.thinFailureRemovesTmp, Gen.Ingest.commitFailureRemovesTmp)⟩
+   (Gen.Ingest.thinFailureRemovesTmp, Gen.Ingest.commitFailureRemovesTmp), Gen.Ingest.storesRejectDeltaCycles⟩
 
 /-- The code before the series (snapshot 671b511 … bb5afda). -/
-def Cfg.old : Cfg := ⟨false, false, false, true, (false, false)⟩
+def Cfg.old : Cfg := ⟨false, false, false, true, (false, false), false⟩
 
 /-! ## random access (`Pack.get_raw` → `resolve_object`) as coded -/
 
@@ -443,26 +454,26 @@ consulted successfully (`self._ext_refs.append(base_sha)`): a name is used when,
 snapshot, some REF delta is still waiting for it and the store has it — whether or not an entry of the pack
 turns out to carry the same name (a REF delta whose base is an object of the store and whose RESULT is that
 very object is such a case: the base is appended all the same, or the pack would need it to resolve it). -/
-def extNamesUsed (H : Hash) (valid : Obj → Bool) (ext : Bytes → Option (Nat × Bytes)) (fuel : Nat) :
-    List Bytes → List Entry → List Obj → List Bytes
+def extNamesUsed (rej : Bool) (H : Hash) (valid : Obj → Bool) (ext : Bytes → Option (Nat × Bytes)) (fuel : Nat) :
+    List Bytes → List Entry → List (Obj × List Bytes) → List Bytes
   | [], _, _ => []
   | n :: ns, pending, acc =>
     if pending.any (isRefFor n) then
       match ext n with
-      | none => extNamesUsed H valid ext fuel ns pending acc
+      | none => extNamesUsed rej H valid ext fuel ns pending acc
       | some _ =>
-        match runJob H valid ext fuel (.ext n) pending acc with
-        | (acc', pending', none) => n :: extNamesUsed H valid ext fuel ns pending' acc'
+        match runJob rej H valid ext fuel (.ext n) pending acc with
+        | (acc', pending', none) => n :: extNamesUsed rej H valid ext fuel ns pending' acc'
         | _ => [n]
-    else extNamesUsed H valid ext fuel ns pending acc
+    else extNamesUsed rej H valid ext fuel ns pending acc
 
 /-- The external bases forward chaining used (`indexer.ext_refs()`), in the sorted order of `_walk_ref_chains`;
 `extend_pack` appends every one of them. -/
-def extUsed (H : Hash) (ext : Bytes → Option (Nat × Bytes)) (entries : List Entry) : List (Nat × Bytes) :=
-  match runJobs H (fun _ => true) ext entries.length ((entries.filter isFull).map Job.full)
+def extUsed (rej : Bool) (H : Hash) (ext : Bytes → Option (Nat × Bytes)) (entries : List Entry) : List (Nat × Bytes) :=
+  match runJobs rej H (fun _ => true) ext entries.length ((entries.filter isFull).map Job.full)
       (entries.filter fun e => !isFull e) [] with
   | (acc, pending, none) =>
-    (extNamesUsed H (fun _ => true) ext entries.length (refNames pending) pending acc).filterMap ext
+    (extNamesUsed rej H (fun _ => true) ext entries.length (refNames pending) pending acc).filterMap ext
   | _ => []
 
 /-- `pack_object_header(type, size)`: the inverse of `objHeader`. -/
@@ -499,7 +510,7 @@ def completePack (c : Cfg) (inflate : Inflate) (H : Hash) (deflate : Bytes → B
   | .error .zlib => if c.rollbackCloseGuarded then (s, some .format) else (s ++ objs, some .other)
   | .error e => (s, some e.toErr)
   | .ok (es, _) =>
-    match (resolveAll H valid s.lookup es).status with
+    match (resolveAll c.rejectDeltaCycles H valid s.lookup es).status with
     | .done => (s ++ objs, none)
     | st => (s, statusErr st)
 
@@ -534,9 +545,9 @@ def diskFirstPass (c : Cfg) (inflate : Inflate) (H : Hash) (p : Path) (s : Store
     match checkedPackData inflate H (p == .addPack && c.commitChecksTrailer) file with
     | .error e => .error e
     | .ok (entries, _) =>
-      let out := resolveAll H (fun _ => true) s.lookup entries
+      let out := resolveAll c.rejectDeltaCycles H (fun _ => true) s.lookup entries
       match out.status with
-      | .done => .ok (some (file, out.objs, extUsed H s.lookup entries))
+      | .done => .ok (some (file, out.objs, extUsed c.rejectDeltaCycles H s.lookup entries))
       | st => .error ((statusErr st).getD .other)
 
 /-- `DiskObjectStore.add_thin_pack` / `add_pack().commit`: framing, trailer (thin: always; commit: since the
@@ -571,7 +582,7 @@ def ingestMemC (c : Cfg) (inflate : Inflate) (H : Hash) (valid : Obj → Bool) (
     match checkedPackData inflate H Gen.Ingest.memChecksTrailer file with
     | .error e => (s, some e)                            -- iter_unpacked is drained by for_pack_data before anything is added
     | .ok (entries, _) =>
-      let out := resolveAll H valid s.lookup entries
+      let out := resolveAll c.rejectDeltaCycles H valid s.lookup entries
       match out.status with
       | .done => (s ++ out.objs, none)
       | st => (if c.memAddsIncrementally then s ++ out.objs else s, statusErr st)
